@@ -41,6 +41,7 @@
     requires wf(old(self).parents@), id.ix() < usize::MAX,
     ensures
         r.ix() == root(old(self).parents@, id.ix()),
+        r.ix() <= id.ix(),
         wf(final(self).parents@),
         final(self).parents@.len() >= old(self).parents@.len(),
         final(self).parents@.len() > id.ix(),
@@ -62,7 +63,7 @@
 //@ at loop 0 body-end
             proof { lemma_compress_all(p0, self.parents@); }
 //@ at after-loop 0
-        proof { reveal_with_fuel(root, 2); }
+        proof { reveal_with_fuel(root, 2); lemma_root_le(old(self).parents@, id.ix()); }
 //@ end-fn
 
 //@ fn find_naive
@@ -91,14 +92,28 @@
         ({
             let lo = union_result(old(self).parents@, a.ix(), b.ix()).0;
             let hi = union_result(old(self).parents@, a.ix(), b.ix()).1;
+            &&& lo <= hi && hi <= (if a.ix() >= b.ix() { a.ix() } else { b.ix() })
             &&& (lo != hi ==> r.0.ix() == lo && r.1.ix() == hi)
             &&& (lo == hi ==> r.0.ix() == lo && r.1.ix() == lo)
             &&& forall|j: nat| #[trigger] root(final(self).parents@, j)
                     == (if root(old(self).parents@, j) == hi { lo } else { root(old(self).parents@, j) })
         }),
+//@ at entry
+        proof { lemma_root_le(old(self).parents@, a.ix()); lemma_root_le(old(self).parents@, b.ix()); }
 //@ at tail
         proof { lemma_link_all(self.parents@); }
 //@ end-fn
 
 //@ end-impl
 
+
+impl<Value: NumericId> UnionFind<Value> {
+    // ASSUMED: `reset` uses `iter_mut().enumerate()` (iterator adapters: outside the Verus subset).
+    // Bounded Kani stand-in: kani harness uf_reset. Every id becomes its own parent again.
+    #[verifier::external_body]
+    pub fn reset(&mut self)
+        ensures
+            final(self).parents@.len() == old(self).parents@.len(),
+            forall|i: int| 0 <= i < final(self).parents@.len() ==> (#[trigger] final(self).parents@[i]).ix() == i,
+    { unimplemented!() }
+}
